@@ -233,8 +233,10 @@ impl PeerHandler {
             tokio::select! {
                 _ = keep_alive_timer.tick() => self.timeout_keep_alive().await?,
                 _ = sync_stats_timer.tick() => self.timeout_sync_stats().await?,
-                Ok(cmd) = self.broad_ch.recv() => {
-                    if self.handle_manager_cmd(cmd).await? == false {
+                // Error means that some commands from manager were lost (lagged receiver), and
+                // peer's view of our state can't be kept consistent any more
+                cmd = self.broad_ch.recv() => {
+                    if self.handle_manager_cmd(cmd?).await? == false {
                         break;
                     }
                 },
